@@ -329,7 +329,7 @@ def oracle_stage(res, d, hbin, tier):
         for pr in library_projects(tier):
             g.write(json.dumps(pr) + "\n")
             nin += 1
-    ngen, ntrans = (5000, 12) if tier == "thorough" else (200, 4)
+    ngen, ntrans = (3500, 12) if tier == "thorough" else (200, 4)
     out = os.path.join(d, "oracle.jsonl")
     if os.path.exists(out):
         os.remove(out)
@@ -412,7 +412,10 @@ def oracle_stage(res, d, hbin, tier):
 def main(tier, replay=None):
     res = Result(PROP, tier, level="other")
     d = rundir(PROP)
+    import time as _time
+    t0 = _time.time()
     proof_stage(res, PROP, thorough=(tier == "thorough"))
+    res.coverage["t_proof_s"] = round(_time.time() - t0, 1)
     ok, log, hbin = harness_build("c13")
     if not ok:
         res.violation("harness build failed against the current /repo tree", {"kind": "build", "log": log[-3000:]},
@@ -445,9 +448,16 @@ def main(tier, replay=None):
         res.coverage["trusted_base"] = TRUSTED_BASE_COMMON
         return res.finish()
 
+    t1 = _time.time()
     info = sym_stage(res, d, hbin, mbin, tier)
+    t2 = _time.time()
     oracle_stage(res, d, hbin, tier)
+    t3 = _time.time()
     coq_cross_check(res, info)
+    res.coverage["t_build_s"] = round(t1 - t0 - res.coverage["t_proof_s"], 1)
+    res.coverage["t_symbol_table_s"] = round(t2 - t1, 1)
+    res.coverage["t_oracle_s"] = round(t3 - t2, 1)
+    res.coverage["t_in_coq_sample_s"] = round(_time.time() - t3, 1)
 
     res.coverage["exhaustive"] = False
     res.coverage["rule"] = (
@@ -488,15 +498,21 @@ def main(tier, replay=None):
         "iff their lower-case spellings are equal, an extended identifier only with the identical spelling, keywords keep "
         "ids 0..N-1 and `id < N` holds exactly for the case variants of keywords (C13_symtab_case_insensitive, "
         "C13_keywords_keep_ids, C13_keyword_lookup_case_insensitive); on the shared tokenizer model: changing the case of "
-        "letters outside comments leaves every token kind, every position, every diagnostic and every numeric value "
-        "unchanged and relates identifier values to the same symbol (C13_case_invariant*), re-layout results for the gap "
-        "scanner (C13_relayout_invariant*); see Props/C13.v for the exact partial statements.  Exploration half "
+        "letters anywhere outside `vhdl_ls off/on` comments leaves every token kind, every position, every diagnostic and "
+        "every numeric value unchanged and changes text values only in letter case (C13_case_invariant_partial: a "
+        "simulation proof over the whole tokenizer model, hypothesis directives_agree), case variants of a basic "
+        "identifier are the same symbol in every reachable table (C13_case_same_symbol), untouched strings/character "
+        "literals/extended identifiers keep their values (C13_case_untouched_values); re-layout invariance only by "
+        "bounded exhaustive evaluation of 1728 lexeme triples x 8 gaps + 144 pairs x 32 gap combinations "
+        "(C13_relayout_invariant_partial).  Exploration half "
         "(DECISIVE for the property as worded, since it quantifies over parser, semantic analysis and lints which are "
         "not modelled): the project-vs-transformed-project oracle over harvested and generated valid and erroneous "
         "multi-file projects, on every run.")
     res.coverage["unproved"] = [
         "later stages (parser, analysis, lints) use only token kinds, values and symbol ids: explored by the oracle",
-        "full re-layout invariance of the whole lexer (positions shift): gap scanner and bounded sweeps proved, rest explored",
+        "re-layout invariance of the tokenizer for all texts (positions shift, no lock-step simulation): bounded sweep "
+        "proved, arbitrary texts explored by the lexer half of the oracle (kinds, values, symbol ids of every transformed file)",
+        "that a case change confined to keywords and basic identifiers satisfies directives_agree (it cannot touch a comment)",
     ]
     res.assumptions = [
         "syntax errors are compared by code and by the number of tokens that end at or before the anchor (DESIGN 4.0: "
